@@ -18,45 +18,56 @@ Proof. intros [L T] Hi. unfold rd. destruct (nth_error buf i) as [c|] eqn:E.
   - exists c. split; [reflexivity|]. intros Hc. destruct (Nat.eq_dec i n) as [->|]; [|lia]. rewrite T in E. injection E as <-. congruence.
   - apply nth_error_None in E. lia. Qed.
 
-Lemma scan_e_safe buf n : term buf n -> forall fuel e opened, (e <= n)%nat -> (n - e < fuel)%nat ->
-  exists r, scan_e fuel buf e opened = Ok r /\
-    match r with EClose e' => (e <= e' < n)%nat | EInner e' => (e <= e' < n)%nat | EEnd => True end.
-Proof. intros T. induction fuel as [|f IH]; intros e opened He Hf; [lia|]. cbn [scan_e].
-  destruct (rd_in buf n e T He) as (c & Rc & Hc). rewrite Rc. cbn [bind].
-  destruct (c =? 0) eqn:E0; [exists EEnd; auto|]. apply N.eqb_neq in E0. specialize (Hc E0).
-  assert (Next : forall o, exists r, scan_e f buf (S e) o = Ok r /\
-      match r with EClose e' => (e <= e' < n)%nat | EInner e' => (e <= e' < n)%nat | EEnd => True end).
-  { intros o. destruct (IH (S e) o) as (r & R & P); [lia|lia|]. exists r. split; [exact R|]. destruct r; auto; lia. }
+Lemma term_tl suf n c : term suf n -> rd suf 0 = Ok c -> c <> 0 -> exists m, n = S m /\ term (tl suf) m.
+Proof. intros [L T] R Hc. destruct suf as [|x suf']; [discriminate|]. cbn in R. injection R as ->.
+  destruct n as [|m]; [cbn in T; injection T as ->; congruence|]. exists m. split; [reflexivity|]. split; [cbn in L |- *; lia|exact T]. Qed.
+
+(* what scan_e hands back: a cursor whose suffix is still terminated, not longer than the one it got, and not at the terminator *)
+Definition cursor_ok (n : nat) (s' : list N) : Prop := exists m c, term s' m /\ (m <= n)%nat /\ rd s' 0 = Ok c /\ c <> 0.
+
+Lemma scan_e_safe : forall fuel suf n e opened, term suf n -> (n < fuel)%nat ->
+  exists r, scan_e fuel suf e opened = Ok r /\
+    match r with EClose _ s' => cursor_ok n s' | EInner _ s' => cursor_ok n s' | EEnd => True end.
+Proof. induction fuel as [|f IH]; intros suf n e opened T Hf; [lia|]. cbn [scan_e].
+  destruct (rd_in suf n 0%nat T ltac:(lia)) as (c & Rc & Hc). rewrite Rc. cbn [bind].
+  destruct (c =? 0) eqn:E0; [exists EEnd; auto|]. apply N.eqb_neq in E0.
+  destruct (term_tl suf n c T Rc E0) as (m & -> & Tm).
+  assert (Here : cursor_ok (S m) suf) by (exists (S m), c; auto).
+  assert (Next : forall o, exists r, scan_e f (tl suf) (S e) o = Ok r /\
+      match r with EClose _ s' => cursor_ok (S m) s' | EInner _ s' => cursor_ok (S m) s' | EEnd => True end).
+  { intros o. destruct (IH (tl suf) m (S e) o Tm ltac:(lia)) as (r & R & P). exists r. split; [exact R|].
+    destruct r as [e' s'|e' s'|]; auto; destruct P as (m' & c' & P1 & P2 & P3); exists m', c'; (split; [exact P1|]; split; [lia|exact P3]). }
   destruct (c =? QCONF_VAR).
-  - destruct (rd_in buf n (S e) T) as (d & Rd & _); [lia|]. rewrite Rd. cbn [bind].
-    destruct (d =? QCONF_VAR_OPEN); [exists (EInner e); split; [reflexivity|lia]|apply Next].
+  - destruct (rd_in suf (S m) 1%nat T ltac:(lia)) as (d & Rd & _). rewrite Rd. cbn [bind].
+    destruct (d =? QCONF_VAR_OPEN); [exists (EInner e suf); split; [reflexivity|exact Here]|apply Next].
   - destruct (c =? QCONF_VAR_OPEN); [apply Next|]. destruct (c =? QCONF_VAR_CLOSE); [|apply Next].
-    destruct opened as [|[|o]]; try (exists (EClose e); split; [reflexivity|lia]). apply Next. Qed.
+    destruct opened as [|[|o]]; try (exists (EClose e suf); split; [reflexivity|exact Here]). apply Next. Qed.
 
 Section Safe.
 Variable env : list N -> option (list N).
 Variable cmd : list N -> option (list N).
 
-Lemma find_buf_safe t buf n fuel0 : term buf n -> (n < fuel0)%nat -> forall fuel s, (s <= n)%nat -> (n - s < fuel)%nat ->
-  exists r, find_buf env cmd fuel fuel0 t buf s = Ok r /\
-    match r with Some (s', e', _) => (s' + 2 <= e' /\ e' < n)%nat | None => True end.
-Proof. intros T H0. induction fuel as [|f IH]; intros s Hs Hf; [lia|]. cbn [find_buf].
-  destruct (rd_in buf n s T Hs) as (c & Rc & Hc). rewrite Rc. cbn [bind].
-  destruct (c =? 0) eqn:E0; [exists None; auto|]. apply N.eqb_neq in E0. specialize (Hc E0).
-  destruct (negb (c =? QCONF_VAR)); [apply IH; lia|].
-  destruct (rd_in buf n (S s) T) as (d & Rd & Hd); [lia|]. rewrite Rd. cbn [bind].
-  destruct (negb (d =? QCONF_VAR_OPEN)) eqn:Ed; [apply IH; lia|].
-  assert (d <> 0) as Hd0. { intros ->. vm_compute in Ed. discriminate. } specialize (Hd Hd0).
-  destruct (scan_e_safe buf n T fuel0 (S (S s)) 1%nat) as (r & R & P); [lia|lia|]. rewrite R. cbn [bind].
-  destruct r as [e|e|]; [| |exists None; auto].
-  - destruct (resolve env cmd t (sub buf (S (S s)) (e - s - 2))) as [new|].
-    + exists (Some (s, e, new)). split; [reflexivity|lia].
-    + apply IH; lia.
-  - apply IH; lia. Qed.
+Lemma find_buf_safe t fuel0 : forall fuel suf n s, term suf n -> (n < fuel)%nat -> (n < fuel0)%nat ->
+  exists r, find_buf env cmd fuel fuel0 t suf s = Ok r.
+Proof. induction fuel as [|f IH]; intros suf n s T Hf H0; [lia|]. cbn [find_buf].
+  destruct (rd_in suf n 0%nat T ltac:(lia)) as (c & Rc & Hc). rewrite Rc. cbn [bind].
+  destruct (c =? 0) eqn:E0; [eauto|]. apply N.eqb_neq in E0.
+  destruct (term_tl suf n c T Rc E0) as (m & -> & Tm).
+  destruct (negb (c =? QCONF_VAR)); [apply (IH (tl suf) m); auto; lia|].
+  destruct (rd_in suf (S m) 1%nat T ltac:(lia)) as (d & Rd & _). rewrite Rd. cbn [bind].
+  destruct (negb (d =? QCONF_VAR_OPEN)) eqn:Ed; [apply (IH (tl suf) m); auto; lia|].
+  assert (Hd0 : d <> 0). { intros ->. vm_compute in Ed. discriminate. }
+  assert (Rd' : rd (tl suf) 0 = Ok d). { destruct suf as [|x [|y suf']]; try discriminate. exact Rd. }
+  destruct (term_tl (tl suf) m d Tm Rd' Hd0) as (k & -> & Tk).
+  destruct (scan_e_safe fuel0 (tl (tl suf)) k (S (S s)) 1%nat Tk ltac:(lia)) as (r & R & P). rewrite R. cbn [bind].
+  destruct r as [e at_e|e at_e|]; [| |eauto].
+  - destruct (resolve env cmd t (firstn (e - s - 2) (tl (tl suf)))) as [new|]; [eauto|].
+    destruct P as (m' & c' & P1 & P2 & P3 & P4). destruct (term_tl at_e m' c' P1 P3 P4) as (k' & -> & Tk'). apply (IH (tl at_e) k'); auto; lia.
+  - destruct P as (m' & c' & P1 & P2 & _). apply (IH at_e m'); auto; lia. Qed.
 
 Theorem round_safe t value : exists r, round env cmd t value = Ok r.
 Proof. unfold round.
-  destruct (find_buf_safe t (value ++ [0]) (length value) (S (length value)) (term_app value) ltac:(lia) (S (length value)) 0%nat) as (r & R & _); [lia|lia|].
+  destruct (find_buf_safe t (S (length value)) (S (length value)) (value ++ [0]) (length value) 0%nat (term_app value)) as (r & R); [lia|lia|].
   rewrite R. cbn [bind]. destruct r as [[[s e] new]|]; eauto. Qed.
 Theorem expand_safe rounds : forall t value, exists v, expand env cmd rounds t value = Ok v.
 Proof. induction rounds as [|k IH]; intros t value; cbn [expand]; [eauto|].
